@@ -19,7 +19,7 @@ from __future__ import annotations
 import datetime
 import time
 
-from .. import core, vt
+from .. import core, vt, window_ilv
 from .. import c1819_lib as L
 
 PROPERTY = "C18"
@@ -28,7 +28,8 @@ META = {
     "engine": "vtx",
     "technique": "bounded-exhaustive enumeration of (window rule, parameters, source timeline) on virtual time; every emitted window "
     "is subscribed in its emission step; observation judged by membership in the set produced by a nondeterministic reference "
-    "simulator of the rule (all orders of same-instant events of different origin), buffers judged differentially against windows",
+    "simulator of the rule (all orders of same-instant events of different origin), buffers judged differentially against windows; plus stateless exhaustive exploration of thread interleavings (bounded preemptions) of "
+    "window/buffer(boundaries) and window_when/buffer_when with the boundaries on another thread than the source (partition oracle)",
     "text": "for window/buffer with count (all count/skip pairs incl. skip<count, skip>count, skip omitted), time (overlapping, adjacent, "
     "gapped spans/shifts), time-or-count, boundary observable, closing selector and toggle: every source timeline of the tier is "
     "executed on the real operators; each window's open instant, elements (with arrival instants), end instant and end kind "
@@ -578,11 +579,14 @@ def run(ctx: core.Ctx):
         "harness cold sources are conforming; every window is subscribed in its emission step",
         "R3: at an instant shared by events of different origin every order is admitted",
     ]
+    window_ilv.run_part(ctx)  # E3: boundaries on another thread than the source
     part = ctx.sharded(shard)
     ctx.cov["rules_covered"] = sorted(k[5:] for k in part.counters if k.startswith("rule:"))
 
 
 def replay(case):
+    if isinstance(case, dict) and str(case.get("harness", "")).startswith("window-threads|"):
+        return window_ilv.replay(case)
     rule, p = case["rule"], case["params"]
     tl = [tuple(x) for x in case["timeline"]]
     out = []
